@@ -442,6 +442,7 @@ let () =
        | "faultspec" :: _ -> ()
        | "paths" :: _ -> ()
        | ["stall"; _] -> ()
+       | ["rawfiles"; _] -> ()
        | t :: "op" :: rest when Stdlib.String.length t = 2 && t.[0] = 't' ->
            let i = Char.code t.[1] - 48 in
            let o = parse_op rest in
@@ -620,6 +621,17 @@ let () =
                         copt (fun x -> cbytes (ostring_of_bytes x)) (b64_decode (cstring_of (ostring_of_bytes b)))
              | _ -> failwith "coqx kind") in
            Printf.printf "coqx:%s:%s\n" name term
+       | ["canon"; kind; name; body] ->
+           (* a state file the library wrote must be a fixed point of read-then-write: JsonWrite.w_pstate / w_fstate (the
+              model of serde_json::to_writer_pretty) applied to what the model reads from it gives the same bytes *)
+           let b = if body = "e" then [] else bytes_of_ostring (unhex_o body) in
+           let (ok, want) = (match kind with
+             | "pj" -> (pj_canonical b, (match pstate_of_body b with Some s -> ostring_of_bytes (w_pstate s) | None -> ""))
+             | "sj" -> (sj_canonical b, (match fstate_of_body_n (nat_of_int_pre (List.length b)) b with
+                                         | Some (r, q) -> ostring_of_bytes (w_fstate r q) | None -> ""))
+             | _ -> failwith "canon kind") in
+           if ok then Printf.printf "canon:%s=ok\n" name
+           else Printf.printf "canon:%s=DIFF:%s\n" name (if want = "" then "e" else hex_o want)
        | ["jsonbody"; name; body] ->
            (* what the model reads from the BYTES of a response body (JsonText.resp_of_body: serde_json's strict reader
               at the struct's fields, its scanner at unknown keys, then the derived Deserialize) *)
